@@ -316,7 +316,10 @@ def _report_gen(prop, out, ex, layer, r, evs):
     idx = r['line_in_exec'] if r['line_in_exec'] is not None else 0
     bad = evs[idx] if idx < len(evs) else None
     slim = None if bad is None else {k: (v if k != 'ents' else '%d entries' % len(v)) for k, v in bad.items()}
-    json.dump(dict(kind='script', prop=prop, layer=layer, tags=ex.tags, violated=r['violated'], event=slim), open(os.path.join(rd, 'replay.json'), 'w'), indent=1)
+    json.dump(dict(kind='script', prop=prop, layer=layer, tags=ex.tags, bits=ex.bits, violated=r['violated'], event=slim), open(os.path.join(rd, 'replay.json'), 'w'), indent=1)
+    sr.write_trace(os.path.join(rd, 'trace.ndjson'), evs)
+    json.dump({'trace.ndjson': dict(module=layer, cfg=('KvTrace_C19.cfg' if prop == 'C19' else 'KvTrace.cfg') if layer == 'KvTrace' else 'LsmTrace_%s.cfg' % prop, header_lines=0, silent_steps=False,
+                                    heap='4g', extra_env={}, violated=r['violated'], prefix=idx, lines=len(evs))}, open(os.path.join(rd, 'tv.json'), 'w'), indent=1)
     open(os.path.join(rd, 'README'), 'w').write('Reproduce: cd /verif && ./check replay %s\nA behaviour generated from LsmGen.tla (tags %s), replayed by the seq driver, is rejected by %s: %s at %s\n' % (rd, ex.tags, layer, r['violated'], json.dumps(slim)[:600]))
     out.violation('%s rejects a generated behaviour (tags %s): %s at %s' % (layer, ','.join(ex.tags), r['violated'] or 'no action explains', json.dumps(slim)[:240]), rd,
                   dict(kind='gen', layer=layer, violated=r['violated']))
